@@ -26,7 +26,7 @@ PRESERVING = ["permute", "reprefix", "duplicate", "rebuild_from_records", "json_
 EDITS = ["alter_value", "add_value", "remove_value", "alter_formal", "alter_id", "toggle_id", "remove_record", "add_record",
          "add_empty_bundle", "remove_bundle", "move_record", "swap_kind", "rename_bundle", "value_kind"]
 PROVNS = monitors.PROVNS
-SWAPS = [("Generation", "Usage", "Invalidation"), ("Entity", "Agent"), ("Specialization", "Alternate_"), ("Start_", "End_")]
+SWAPS = [("Generation", "Usage", "Invalidation"), ("Entity", "Agent"), ("Specialization", "Mention"), ("Start_", "End_")]
 
 
 def plan(tier, seed):
@@ -361,18 +361,7 @@ def judge(ctx, idx, case):
     compare(ctx, "self", d, d, problems)
     # the same program built a second time while ==, != and hash() are used on the growing document ("unaffected by the path
     # by which a document was built"): comparisons are observations, they must not leave anything behind (e.g. a stale cache)
-    def observe(i, op, out, res, st):
-        if r.random() < 0.5:
-            try:
-                recs = st.doc.get_records() + [x for b in st.doc.bundles for x in b.get_records()]
-                for x in recs:
-                    hash(x)
-                len(set(recs))
-                st.doc == st.doc
-                for b in st.doc.bundles:
-                    b == b
-            except Exception:
-                ctx.count("observed_build.observation_raised")
+    observe = interp.make_observer(random.Random(case["seed"] + 1), p=0.6)
     watched = interp.run(case["ops"], observe).doc
     eq = compare(ctx, "preserving.observed_build", d, watched, problems)
     ctx.count("variant.observed_build.%s" % ("equivalent" if eq else "NOT-equivalent"))
